@@ -262,6 +262,30 @@ macro_rules! run_queries {
 						let r = if byva { view.deref_slice_s::<$t>(Ptr::from(n(1) as $va_t), n(3) as $t) } else { view.derva_slice_s::<$t>(n(1) as u32, n(3) as $t) };
 						match r { Ok(x) => { assert!(x.as_ptr() as usize % std::mem::align_of::<$t>() == 0, "harness: misaligned slice returned"); reg(x.as_ptr() as *const u8, std::mem::size_of_val(x)) }, Err(e) => format!("e:{:?}", e) }
 					}}}
+					// element types whose PartialEq is not bytewise (seed C05-20): -0.0 == +0.0 and NaN != NaN, so the two paths
+					// must agree with each other and with float equality, whatever the bytes are (zero dwords are everywhere,
+					// the 0xFF sections of the long-string cases are all NaN)
+					{
+						let (rva, va) = if byva { (view.va_to_rva(n(1) as $va_t).ok(), Some(n(1) as $va_t)) } else { (Some(n(1) as u32), view.rva_to_va(n(1) as u32).ok()) };
+						// (a null rva and a null va are different addresses: Err(Null) is reported per path)
+						if let (Some(rva), Some(va)) = (rva.filter(|r| *r != 0), va.filter(|v| *v != 0)) {
+							for &bits in &[0x8000_0000u32, 0, 0x7FC0_0000, 0xFFFF_FFFF, n(3) as u32] {
+								let s = f32::from_bits(bits);
+								let a = view.derva_slice_s::<f32>(rva, s);
+								let b = view.deref_slice_s::<f32>(Ptr::from(va), s);
+								let same = match (&a, &b) { (Ok(x), Ok(y)) => x.as_ptr() == y.as_ptr() && x.len() == y.len(), (Err(e), Err(f)) => e == f, _ => false };
+								assert!(same, "harness: deref_slice_s and derva_slice_s differ for f32 elements, sentinel bits {:#x}: {:?} vs {:?}", bits, a.map(|x| x.len()), b.map(|x| x.len()));
+								if let Ok(x) = a { assert!(x.iter().all(|e| *e != s), "harness: the sentinel (float equality) lies inside the returned f32 slice"); }
+							}
+							for &bits in &[0x8000_0000_0000_0000u64, 0, 0x7FF8_0000_0000_0000, n(3) as u64] {
+								let s = f64::from_bits(bits);
+								let a = view.derva_slice_s::<f64>(rva, s);
+								let b = view.deref_slice_s::<f64>(Ptr::from(va), s);
+								let same = match (&a, &b) { (Ok(x), Ok(y)) => x.as_ptr() == y.as_ptr() && x.len() == y.len(), (Err(e), Err(f)) => e == f, _ => false };
+								assert!(same, "harness: deref_slice_s and derva_slice_s differ for f64 elements, sentinel bits {:#x}", bits);
+							}
+						}
+					}
 					match n(2) { 1 => t!(u8), 2 => t!(u16), 4 => t!(u32), _ => t!(u64) }
 				},
 				"cstr" | "vcstr" => {
